@@ -1870,6 +1870,11 @@ func (s *scanner) addEntryPoints(entryPoints []EntryPoint) []graph.EntryPoint {
 		return nil
 	}
 
+	// The loop below rewrites entry points in place. Work on a copy so that the
+	// caller's slice, which an incremental build context reuses for every
+	// rebuild, keeps the paths the user gave.
+	entryPoints = append([]EntryPoint{}, entryPoints...)
+
 	// Check each entry point ahead of time to see if it's a real file
 	entryPointAbsResolveDir := s.fs.Cwd()
 	for i := range entryPoints {
